@@ -103,6 +103,12 @@ OPS = {
     "arithmetic.int.ilt_s": lambda a, b: a < b, "arithmetic.int.ile_s": lambda a, b: a <= b, "arithmetic.int.igt_s": lambda a, b: a > b, "arithmetic.int.ige_s": lambda a, b: a >= b,
     "arithmetic.int.iand": lambda a, b: a & b, "arithmetic.int.ior": lambda a, b: a | b, "arithmetic.int.ixor": lambda a, b: a ^ b, "arithmetic.int.inot": lambda a: ~a,
     "arithmetic.int.ishl": _shl, "arithmetic.int.ishr": _shr, "arithmetic.int.ipow": _pow,
+    # floats: Python's float is binary64, as is HUGR's float64
+    "arithmetic.float.fadd": lambda a, b: a + b, "arithmetic.float.fsub": lambda a, b: a - b, "arithmetic.float.fmul": lambda a, b: a * b,
+    "arithmetic.float.fneg": lambda a: -a, "arithmetic.float.fabs": lambda a: abs(a),
+    "arithmetic.float.feq": lambda a, b: a == b, "arithmetic.float.fne": lambda a, b: a != b, "arithmetic.float.flt": lambda a, b: a < b,
+    "arithmetic.float.fle": lambda a, b: a <= b, "arithmetic.float.fgt": lambda a, b: a > b, "arithmetic.float.fge": lambda a, b: a >= b,
+    "arithmetic.conversions.convert_s": lambda a: float(a), "arithmetic.conversions.convert_u": lambda a: float(a),
     "tket.bool.eq": lambda a, b: a == b, "tket.bool.and": lambda a, b: a and b, "tket.bool.or": lambda a, b: a or b, "tket.bool.xor": lambda a, b: a != b,
     "tket.bool.not": lambda a: not a,
 }
